@@ -573,7 +573,7 @@ SPECS['C11'] = dict(
         'distinct = fingerprints of the order of operation returns',
         samples, observed=pick(agg, 'histories', 'ops', 'notifies', 'notifiesWithCallbacks', 'callbacks', 'subscribes', 'unsubscribes', 'shrinks', 'existsCalls', 'depthCalls', 'writesOverlappingNotify',
                                'snapshotsJudged', 'snapshotsWithConcurrentWrite', 'missedObserversJudged', 'maxThreads', 'delaysInjected', 'lockParks',
-                               'linHistories', 'linOperations', 'linSearchNodes', 'linInconclusive', 'linHistoriesWithOverlap', 'fastChurnCases', 'fastChurnOperations', 'deliveriesEndedByException')),
+                               'linHistories', 'linOperations', 'linSearchNodes', 'linInconclusive', 'linHistoriesWithOverlap', 'fastChurnCases', 'fastChurnOperations', 'deliveriesEndedByException', 'staleHandleUnsubscribesRejected')),
     assumptions=['mute/unmute and in-callback invalidation are excluded: the quantifier does not list them and they bypass the lock by design', 'callbacks do not call back into the router',
                  'large histories: every rule is a necessary condition of linearizability (such a check can miss non-linearizable histories that satisfy all four rules); small histories: complete search, the sequential SubjectRouter is the specification'],
     manifest=dict(engine='h_crouter', text='Offline checker over stamped call/return/callback events of real multi-threaded histories: four necessary conditions of linearizability decided exactly per notify '
